@@ -186,6 +186,7 @@ WithFns(sigs, fs) == IF Len(fs) = 0 THEN sigs ELSE WithFns(sigs @@ (fs[1].name :
 (* the prelude of the generated packages (tools/vlib/infgen.py PRELUDE), as abstract syntax:                                 *)
 (*   let ipair a b = (a, b)      let iid x = x      let iswap p = (frt.Snd p, frt.Fst p)      let iconst (n:int) y = n       *)
 (*   let iunbox (b:IBox<int>) = b.Val    let ioptlen (o:IOpt<string>) = 1    let iwrap x = {Val=x; Tag="w"}                   *)
+(*   let imkint (n:int) = {Val=n; Tag="k"}                                                                                   *)
 Var(x) == <<"var", x>>
 Fn(name, params, stmts, fin) == [name |-> name, params |-> params, stmts |-> stmts, fin |-> fin]
 PreludeFns == <<
@@ -196,6 +197,7 @@ PreludeFns == <<
   Fn("iwrap", <<"x">>, <<>>, <<"call", "{IBox}", <<Var("x"), <<"lit", "string">>>>>>) >>
 \* annotated signatures are given, not inferred
 AnnotSigs == ("iunbox" :> Sig(0, <<Nm("IBox", <<TInt>>)>>, TInt)) @@ ("ioptlen" :> Sig(0, <<Nm("IOpt", <<TStr>>)>>, TInt))
+             @@ ("imkint" :> Sig(0, <<TInt>>, Nm("IBox", <<TInt>>)))                       \* let imkint (n:int) = {Val=n; Tag="k"}
 Sigs == WithFns(LibSigs @@ AnnotSigs, PreludeFns)
 
 \* expected schemes of the prelude, as the documentation describes generalisation
